@@ -593,6 +593,11 @@ func (a *Analysis) ruleLayouts() {
 							}
 						}
 					}
+					if ok && !bv.Known && bv.C != nil && bv.C.Kind == "lookupok" && x.Conds[i].Taken != bv.Neg {
+						// the side on which a word WAS found (a `failed` flag tested after the loop):
+						// that every word is in the list is what acceptance must depend on
+						continue
+					}
 					if !ok || !bv.Known {
 						others = append(others, fmt.Sprint(x.Conds[i].Val))
 					}
@@ -684,6 +689,13 @@ func (a *Analysis) ruleLayouts() {
 						r.Bad("L2", fk+"/compared-values", xp, ctx.Name, "the accepted condition is %v = %v; BIP39 requires %v = %v", la, lb, wantA, wantB)
 					}
 				} else {
+					if cmp != nil {
+						if bv := cmp.Val.(BoolV); bv.C.Kind == "lookupok" && cmp.Taken == bv.Neg {
+							// taken where a word was NOT found (a `failed` flag tested after the loop):
+							// the unknown-word exit, which S2 judges
+							continue
+						}
+					}
 					rejects = append(rejects, rejExit{xp, cmp, others, fmt.Sprint(x.Vals[len(x.Vals)-1])})
 					if cmp != nil {
 						bv := cmp.Val.(BoolV)
